@@ -336,3 +336,47 @@ pub open spec fn spec_negate(op: Op) -> Op {
     }
 }
 '''
+
+
+# ==== lexer (second generated file, lexer_v.rs) =======================================================================
+# measure: (parts left, characters left in the current part, +1 for the synthetic space at a part boundary)
+LEXER_SPECS = {
+    'Lexer::new': dict(ret='r', strip_pub=True,
+        # both facts hold for every Rust Vec<String> (a String is at most isize::MAX bytes); listed as assumptions
+        requires=['input@.len() <= usize::MAX', 'forall|i: int| 0 <= i < input@.len() ==> (#[trigger] input@[i])@.len() < isize::MAX'],
+        ensures=['lex_wf(r)', 'r.input == input']),
+    'Lexer::next_lexem': dict(ret='r', strip_pub=True,
+        requires=['lex_wf(*old(self))'],
+        ensures=['lex_wf(*final(self))', 'final(self).input == old(self).input',
+                 # every token consumes input: the loop `while let Some(lexem) = lexer.next_lexem()` of Parser::parse terminates
+                 'r is Some ==> lex_lt(*final(self), *old(self))',
+                 # C11: both bracket styles leave the lexer in the same state
+                 '/*C11.lexer.after_open*/ r is Some ==> final(self).after_open == (r->Some_0 is Open || r->Some_0 is CurlyOpen)',
+                 '/*C11.lexer.after_open*/ r is Some ==> final(self).after_operator == (r->Some_0 is Operator)'],
+        decreases='m1(*old(self)), m2(*old(self))',
+        rewrites=[('input_part.chars().nth(self.char_index as usize)', 'verif_char_at(input_part, self.char_index as usize)')],
+        loops={0: dict(invariant=['lex_wf(*self)', 'self.input == old(self).input',
+                                  '!(mode is Undefined) ==> lex_lt(*self, *old(self))',
+                                  '(mode is Undefined) ==> (lex_lt(*self, *old(self)) || (m1(*self) == m1(*old(self)) && m2(*self) == m2(*old(self))))',
+                                  '/*C11.lexer.after_open*/ !(mode is Undefined) ==> self.after_open == (mode is Open)'],
+                       decreases='m1(*self), m2(*self)')}),
+    'Lexer::is_arithmetic_op_char': dict(ret='r'),
+    'Lexer::is_op_char': dict(ret='r'),
+    'is_paren_char': dict(ret='r'),
+}
+LEXER_EXTRA = '''
+spec fn part_len(l: Lexer, i: int) -> int { if 0 <= i < l.input@.len() { l.input@[i]@.len() as int } else { 0 } }
+spec fn lex_wf(l: Lexer) -> bool {
+    l.input_index <= l.input@.len() && l.input@.len() <= usize::MAX && -1 <= l.char_index
+    && (l.input_index < l.input@.len() ==> l.char_index <= l.input@[l.input_index as int]@.len())
+    && (forall|i: int| 0 <= i < l.input@.len() ==> (#[trigger] l.input@[i])@.len() < isize::MAX)
+}
+spec fn m1(l: Lexer) -> int { l.input@.len() - l.input_index }
+spec fn m2(l: Lexer) -> int { if l.input_index < l.input@.len() { part_len(l, l.input_index as int) - l.char_index } else { 0 } }
+spec fn lex_lt(a: Lexer, b: Lexer) -> bool { m1(a) < m1(b) || (m1(a) == m1(b) && m2(a) < m2(b)) }
+
+// canary: must FAIL (vacuity / machinery guard)
+fn verif_canary_must_fail(x: u8) -> (r: u8)
+    ensures r == 255,
+{ x }
+'''
